@@ -402,6 +402,9 @@ func runHD(r *core.Run, x *sess, unit *int64) {
 			rwant = append(rwant, w)
 		}
 		e.realPath(rc, rbi, rwant)
+		if lb%16 == 5 {
+			r.Sample(rc[len(rc)/2])
+		}
 		if r.Thorough() {
 			for bi := range e.bins {
 				for xi := range e.bins[bi] {
